@@ -26,7 +26,7 @@ from mc.drivers import prs_ops, state
 from mc.oracles import opc_ref
 
 LEVEL = "model_checking"
-RULE = ("BFS over operation histories (replay mode) from 4 initial decks; a state is non-trivial when its history "
+RULE = ("BFS over operation histories (replay mode) from 5 initial decks; a state is non-trivial when its history "
         "contains at least one mutating operation followed or preceded by a save/touch_slides (cache-sensitive) or "
         "has length >= 2; distinct = distinct canonical states (saved-package digest + populated lazy caches)")
 ASSUMPTIONS = [
@@ -64,8 +64,13 @@ FULL = [
     {"op": "hlink_shape", "url": URL_A},
     {"op": "hlink_shape", "url": URL_B},
     {"op": "hlink_shape", "url": None},
+    {"op": "hlink_shape", "url": URL_A, "which": "first"},
+    {"op": "hlink_shape", "url": None, "which": "first"},
     {"op": "hlink_run", "url": URL_A},
     {"op": "hlink_run", "url": None},
+    {"op": "hlink_run", "url": URL_A, "which": "first"},
+    {"op": "hlink_run", "url": None, "which": "first"},
+    {"op": "add_picture", "img": "I11", "via": "stream"},
     {"op": "target_slide", "to": 0},
     {"op": "target_slide", "to": None},
     {"op": "remove_layout", "in_use": False},
@@ -88,6 +93,12 @@ SUB = [
     {"op": "add_picture", "img": "B", "via": "stream", "slide": 0},
     {"op": "hlink_shape", "url": URL_A},
     {"op": "hlink_shape", "url": None},
+    {"op": "hlink_shape", "url": URL_A, "which": "first", "slide": 0},
+    {"op": "hlink_shape", "url": URL_A, "slide": 0},
+    {"op": "hlink_shape", "url": None, "slide": 0},
+    {"op": "hlink_run", "url": URL_A, "which": "first", "slide": 0},
+    {"op": "hlink_run", "url": URL_A, "slide": 0},
+    {"op": "hlink_run", "url": None, "slide": 0},
     {"op": "notes_text", "text": "n1"},
     {"op": "target_slide", "to": 0},
     {"op": "target_slide", "to": None},
@@ -95,7 +106,7 @@ SUB = [
 ]
 
 CORPUS_INIT = "corpus:features/steps/test_files/test.pptx"
-INITS = ["default", "out_of_order", "non_contiguous", CORPUS_INIT]
+INITS = ["default", "out_of_order", "non_contiguous", CORPUS_INIT, "rich"]
 
 # content types the standard assigns to the kinds of part the alphabet creates, by part-name pattern
 CT = "application/vnd.openxmlformats-officedocument."
@@ -255,7 +266,7 @@ def run(ctx):
         d_full = 3
     ctx.extra["alphabet"] = {"full": [_opsig([o]) for o in FULL], "sub": [_opsig([o]) for o in SUB]}
     n1 = explorer.explore(ctx, System(INITS, _alphabet_full), d_full, name="full-alphabet")
-    n2 = explorer.explore(ctx, System(INITS[:3], _alphabet_sub), d_sub, name="cache-sensitive-subalphabet")
+    n2 = explorer.explore(ctx, System(["default", "out_of_order", "non_contiguous", "rich"], _alphabet_sub), d_sub, name="cache-sensitive-subalphabet")
     single = [op for op, s in ctx.outcomes.items() if len(s) == 0]
     if single:
         from mc.core.run import HarnessError
